@@ -294,7 +294,8 @@ func (hc *HeaderChain) GetAncestor(hash common.Hash, number, ancestor uint64, ma
 // caching it if found.
 func (hc *HeaderChain) GetHeader(hash common.Hash, number uint64) *types.Header {
 	// Short circuit if the header's already in the cache, retrieve otherwise
-	if header, ok := hc.headerCache.Get(hash); ok {
+	// the cache is keyed by hash only: a hit counts only for the header's own number, as in the database
+	if header, ok := hc.headerCache.Get(hash); ok && header.(*types.Header).Number.Uint64() == number {
 		return header.(*types.Header)
 	}
 	header := rawdb.ReadHeader(hc.chainDb, hash, number)
@@ -318,7 +319,11 @@ func (hc *HeaderChain) GetHeaderByHash(hash common.Hash) *types.Header {
 
 // HasHeader checks if a block header is present in the database or not.
 func (hc *HeaderChain) HasHeader(hash common.Hash, number uint64) bool {
-	if hc.numberCache.Contains(hash) || hc.headerCache.Contains(hash) {
+	// the caches are keyed by hash only: a hit counts only for the header's own number, as in the database
+	if n, ok := hc.numberCache.Peek(hash); ok && n.(uint64) == number {
+		return true
+	}
+	if header, ok := hc.headerCache.Peek(hash); ok && header.(*types.Header).Number.Uint64() == number {
 		return true
 	}
 	return rawdb.HasHeader(hc.chainDb, hash, number)
